@@ -1,6 +1,7 @@
 import PqV.Lemmas.Plain
 import PqV.Lemmas.Footer
 import PqV.Spec.File
+import PqV.Lemmas.WritePage
 /-!
 # C02 — written files are valid Parquet that an independent reader decodes identically
 
@@ -91,5 +92,47 @@ theorem framing_check_accepts_conforming (w n : Nat) (rs : List Run) (tail : Lis
 
 /-- the check is not vacuous: a group of eight 8-bit indices announced, seven stored -/
 example : hybridTight 8 7 [3, 0, 1, 2, 0, 1, 2, 0] = false := by decide
+
+section writtenChunk
+open PqV.Impl
+
+/-- **every column chunk the writer lays down is valid and is decoded by the independent reader to the cells that
+    went in.**  `writerChunk` is the model of `writer.write_column` for a flat column (tied to the real writer byte for
+    byte by the `wpage.chunk` correspondence on every file the harness writes): optional dictionary page, then one data
+    page per slice of rows — definition-level block of `make_definitions` (one RLE run when the page has no null, one
+    bit-packed run of the not-null bits otherwise; 4-byte length prefix in v1), the values of `encode_plain` or the
+    index run of `encode_dict`, 8 zero bytes after a v1 page — with the header numbers `write_column` records.
+    `decodePages` is the page loop of `Spec.File` (the very function run on the real bytes).  For ANY column spec
+    (physical type, REQUIRED / OPTIONAL, page v1 / v2, PLAIN / dictionary with 1-, 2- or 4-byte codes), ANY number of
+    pages of ANY sizes (also empty pages and pages of nulls only) and ANY cells the type can hold: the reader accepts
+    every page (sizes, num_nulls, num_rows, level byte length all agree with the bytes), counts exactly the rows
+    written, finds every run tightly framed (`loose = 0`), and null scatter returns exactly the cells — for a
+    categorical column the category each code names. -/
+theorem written_chunk_decodes (c : ColSpec) (hpt : c.ptype ≤ 7) (cats : List Cell) (pages : List (List Cell))
+    (hcats : c.dictItem.isSome → ∀ x ∈ cats, plainOk c.ptype c.typeLength x = true)
+    (hok : ∀ p ∈ pages, PageOk c cats.length p) :
+    ∃ acc, decodePages (leafOf c) {} (writerChunk c cats pages) = .ok acc ∧
+      scatter (leafOf c).maxDef acc.defs acc.vals = pages.flatten.map (render c cats) ∧
+      acc.count = pages.flatten.length ∧ acc.loose = 0 ∧ acc.reps = List.replicate pages.flatten.length 0 :=
+  written_chunk c hpt cats pages hcats hok
+
+/-- for a column that is not dictionary-encoded the reader's cells are literally the writer's cells -/
+theorem written_plain_chunk_identity (c : ColSpec) (hd : c.dictItem = none) (cats : List Cell) (cells : List Cell) :
+    cells.map (render c cats) = cells := by
+  conv => rhs; rw [← List.map_id cells]
+  apply List.map_congr_left
+  intro x _
+  simp [render, hd]
+
+/-! non-vacuity: an OPTIONAL INT64 column with a null, two v1 pages; a categorical with 2-byte codes under v2 -/
+example : PageOk { ptype := PT_INT64, hasNulls := true, v2 := false } 0 [Cell.int 5, Cell.null, Cell.int (2 ^ 64 - 1)] :=
+  ⟨by decide, by decide, by decide +kernel⟩
+example : PageOk { ptype := PT_BYTE_ARRAY, hasNulls := true, v2 := true, dictItem := some 2 } 300 [Cell.int 299, Cell.null] :=
+  ⟨by decide, by decide, by decide +kernel⟩
+example : (decodePages (leafOf { ptype := PT_INT64, hasNulls := true, v2 := false }) {}
+    (writerChunk { ptype := PT_INT64, hasNulls := true, v2 := false } [] [[Cell.int 5, Cell.null], [Cell.int 7]])).toOption.map
+      (fun a => scatter 1 a.defs a.vals) = some [Cell.int 5, Cell.null, Cell.int 7] := by decide +kernel
+
+end writtenChunk
 
 end PqV.Props.C02
